@@ -267,12 +267,12 @@ def evaluate(ctx, cases, drv, mdl, rules, tag, rule_cov, stats, max_report=5):
     num_of = {v: k for k, v in rules.items()}
     scripts = [";".join(g.to_script(c["world"])) for c in cases]
     tokens = [g.to_tokens(c["world"]) for c in cases]
+    import time
+    t0 = time.time()
     impl = run_sharded(drv, "run", scripts, ctx.workdir, tag + ".impl")
-    tf = os.path.join(ctx.workdir, tag + ".tokens")
-    with open(tf, "w") as f:
-        f.write("".join(t + "\n" for t in tokens))
-    rc, mo = vf.sh([mdl, "run", tf], timeout=3000)
-    model = mo.split("\n")
+    t1 = time.time()
+    model = run_sharded(mdl, "run", tokens, ctx.workdir, tag + ".model")
+    ctx.log("%s: %d cases, implementation %.0fs, model %.0fs" % (tag, len(cases), t1 - t0, time.time() - t1))
     reported = 0
     pending = []     # (case index, problems, impl core multiset) : classified after the loop
     mm = str(num_of.get("MATH_MATHML"))
@@ -488,6 +488,7 @@ def run(ctx):
             cases.append({"kind": "fault", "world": fw, "info": info})
             loc_hist[info["where"].split("/")[0]] += 1
             made += 1
+    ctx.log("generated %d cases" % len(cases))
     nprob = evaluate(ctx, cases, drv, mdl, rules, "gen", rule_cov, stats)
     ctx.log("generated: %d worlds, %d cases, problems %d, %s" % (n_worlds, len(cases), nprob, dict(stats)))
 
